@@ -23,6 +23,7 @@ enum {
 	QB_VP_ARRAY_UNLOCK,		/* about to release grow_lock */
 	QB_VP_ARRAY_TABLE_READ,		/* about to read the bin table (a->bin / a->num_bins) */
 	QB_VP_ARRAY_TABLE_WRITE,	/* about to reallocate the bin table */
+	QB_VP_ARRAY_UNLOCKED,		/* grow_lock released (a scheduling point outside the critical section) */
 
 	/* ring buffer: one point AFTER each access to shared state (a = value / index, b = extra) */
 	QB_VP_RB_SF_RD_WP = 200,	/* space_free: write_pt read (a = value) */
